@@ -788,7 +788,7 @@ func TestVerifC30(t *testing.T) {
 				c30JudgeDecision(c, role, exp, dec, hi == w1.tun[x], labels)
 			}
 		}
-		return w.key(), w.menu()
+		return mc.Hash(w.key()), w.menu()
 	}
 	// quick: fixed depth, no time stop (the box is sized for a few seconds on an idle 16-core machine, and the vacuity
 	// guards below need all of it); thorough: deeper, whole levels until the soft budget runs out.
